@@ -241,10 +241,11 @@ def write_evidence(pid, mod, tier, seed, results, viol, known, herr, inconc, wal
         "property_id": pid,
         "tier": tier,
         "seed": seed,
-        "level": "model_checking",
+        "level": meta.get("level", "model_checking"),
         "coverage": {
             "evaluations": max(evaluations, 0),
-            "distinct_nontrivial": decided_paths,
+            "distinct_nontrivial": decided_paths if meta.get("level", "model_checking") == "model_checking" else
+            sum(r.get("n_paths", 0) for r in results),
             "rule": "evaluations = SMT queries discharged (path-feasibility, planted-factorisation and claim queries); "
                     "a case is one (configuration, execution path) of the real code run on symbolic tensors; it is counted as "
                     "non-trivial when at least one claim on it was decided by a solver call (not by constant folding); "
